@@ -341,10 +341,12 @@ pub fn tokenize<'a>(
 
             // Skip comments. Don't skip the terminating line break, if it exists [ref:line_break].
             '#' => {
-                while let Some((j, _)) = iter.next() {
-                    if iter.peek() == Some(&(j + 1, '\n')) {
+                while let Some(&(_, d)) = iter.peek() {
+                    if d == '\n' {
                         break;
                     }
+
+                    iter.next();
                 }
             }
 
